@@ -358,3 +358,62 @@ Proof.
   unfold isd_request. destruct (GetKey_pack _) as [stub|e]; [|reflexivity].
   rewrite (rpc_request_flavour _ _ _ _ _ _ _ _ _ _ H2). reflexivity.
 Qed.
+
+(* RpcClient.request on an anonymous connection: nothing is handed to a security context; the wire is the 16-octet PDU header, the
+   8-octet request header (alloc_hint = stub length, context id, opnum) and the stub *)
+Lemma send_request_anon_inv (wrap : wrap_fn) sg ctx opnum stub wire oargs :
+  send_request wrap None sg ctx opnum stub None = Ok (wire, oargs) ->
+  oargs = None /\ exists hdr16, len hdr16 = 16 /\ wire = hdr16 ++ fixed8 (len stub) ctx opnum ++ stub.
+Proof.
+  unfold send_request, create_request, prepare_pdu.
+  destruct (offsets_spec (len stub)) as (_ & Ha & Hfp & _). rewrite Hfp, Ha.
+  change (Z.to_nat 2) with 2%nat.
+  destruct (to_bytes_le 2 _) as [fl|e] eqn:Efl; [|discriminate]. cbn [bind].
+  apply to_bytes_le_inv in Efl as [_ ->]. intros H. apply Ok_inj in H.
+  split; [congruence|].
+  apply (f_equal fst) in H. cbn [fst] in H. subst wire.
+  unfold request_pack, request_body, opt_sec_trailer_pack.
+  cbn [rq_header rq_sec_trailer rq_alloc_hint rq_context_id rq_opnum rq_obj rq_stub_data concat].
+  rewrite !app_nil_r.
+  set (h := create_pdu_header c_PT_REQUEST 0 1 c_PFC_NONE).
+  replace (pdu_header_pack h ++ le 4 (len stub) ++ le 2 ctx ++ le 2 opnum ++ stub)
+    with (pdu_header_pack h ++ (fixed8 (len stub) ctx opnum ++ stub))
+    by (unfold fixed8; cbn [concat]; rewrite app_nil_r, <- !app_assoc; reflexivity).
+  rewrite patch_fraglen. eexists. split; [apply len_patched_header|]. reflexivity.
+Qed.
+
+(* the ept_map request of the conversation: sent in clear on the first connection, presentation context 0, opnum 3, the stub of
+   the library's _EPT_MAP_ISD_KEY (= the model's structured ept_map for ISD_KEY over ncacn_ip_tcp, see ept_map_packed) *)
+Lemma conversation_ept_request (wrap : wrap_fn) (unwrap : unwrap_fn) pv f legs dc sd rk l0 l1 l2 r t wire oargs :
+  get_key_conversation f wrap unwrap pv legs dc sd rk l0 l1 l2 = (r, t) ->
+  tr_ept_request t = Some (wire, oargs) ->
+  oargs = None /\ exists hdr16, len hdr16 = 16 /\
+    wire = hdr16 ++ fixed8 (len c_onl_ept_map_stub) c_onl_epm_ctx_id c_onl_ept_map_opnum ++ c_onl_ept_map_stub.
+Proof.
+  unfold get_key_conversation. intros H Hreq.
+  destruct (bind_run false [] (ds_epm_srv dc) (context_ids epm_contexts)) as [rb s].
+  destruct rb as [results|e].
+  2:{ apply (f_equal snd) in H. cbn [snd] in H. subst t. discriminate. }
+  destruct (process_bind_result _ results c_onl_epm_ctx_id) as [u|e].
+  2:{ apply (f_equal snd) in H. cbn [snd] in H. subst t. discriminate. }
+  assert (Hctx : match f with Sync => k_onl_sync_epm_ctx c_onl_epm_ctx_id | Async => k_onl_async_epm_ctx c_onl_epm_ctx_id end = c_onl_epm_ctx_id)
+    by (destruct f; reflexivity).
+  rewrite Hctx in H.
+  destruct (rpc_request f wrap unwrap None (sign s) c_onl_epm_ctx_id c_onl_ept_map_opnum c_onl_ept_map_stub None (ds_ept_stream dc) (ds_sched dc))
+    as [sent_req resp] eqn:Er.
+  assert (Ht : tr_ept_request t = ok_opt sent_req).
+  { destruct resp as [rsp|e]; [|apply (f_equal snd) in H; cbn [snd] in H; subst t; reflexivity].
+    destruct (process_ept_map_result _ (rs_stub_data rsp)) as [[port ticks]|e]; [|apply (f_equal snd) in H; cbn [snd] in H; subst t; reflexivity].
+    unfold isd_key_phase in H.
+    destruct (bind_run true legs (ds_isd_srv dc) (context_ids isd_key_contexts)) as [rb2 s2].
+    destruct rb2 as [results2|e]; [|apply (f_equal snd) in H; cbn [snd] in H; subst t; reflexivity].
+    destruct (process_bind_result _ results2 c_onl_isd_ctx_id) as [u2|e]; [|apply (f_equal snd) in H; cbn [snd] in H; subst t; reflexivity].
+    destruct (isd_request _ _ _ _ _ _ _ _) as [sr2 resp2].
+    destruct resp2; apply (f_equal snd) in H; cbn [snd] in H; subst t; reflexivity. }
+  rewrite Ht in Hreq. destruct sent_req as [[w oa]|e]; cbn [ok_opt] in Hreq; [|discriminate].
+  assert (w = wire /\ oa = oargs) as [-> ->] by (split; congruence).
+  unfold rpc_request in Er.
+  destruct (send_request wrap None (sign s) c_onl_epm_ctx_id c_onl_ept_map_opnum c_onl_ept_map_stub None) as [sr|e] eqn:Es; [|discriminate].
+  assert (sr = (wire, oargs)) by congruence. subst sr.
+  exact (send_request_anon_inv _ _ _ _ _ _ _ Es).
+Qed.
